@@ -240,6 +240,19 @@ def run_unit(unit):
                     except Exception as e:  # noqa
                         ob["replay_error"] = f"{type(e).__name__}: {e}"
             res["obligations"].append(ob)
+        mism = [o for o in res["obligations"] if ":frame-local:" in o["label"]]
+        if mism:
+            # the code has a shape the contract does not describe: nothing this unit says about it is trusted in either direction
+            why = mism[0]["label"].split(":frame-local:", 1)[1].strip()
+            for o in res["obligations"]:
+                if o["verdict"] != "discharged":
+                    o["verdict"] = "unknown"
+                    o["solver"] = "none (contract does not match the code)"
+                    o["reason"] = "contract/code mismatch: " + why
+                    o.pop("replay", None)
+                    o.pop("model", None)
+            res["status"] = "unsupported"
+            res["error"] = "contract/code mismatch: " + why
     except Unsupported as e:
         res["status"] = "unsupported"
         res["error"] = str(e)
